@@ -3,14 +3,15 @@
 import datetime
 import json
 import os
+from collections import Counter
 from vlib import *
 
 TRACE_CFG = "CoinomicsTrace.cfg"
 
 MANIFEST_ENTRY = dict(engine="Coinomics", design="§4 C13",
-   technique="TLA+ specs Coinomics.tla + Dec18.tla: TLC exhaustive model checking of the per-block mint/cap rules; TLC-simulated block sequences and seeded random 128-bit scenarios executed on the real x/coinomics EndBlocker at scripted block times; every recorded block validated by TLC (exact BigNum arithmetic) against the property layer (trace validation)",
-   text="The statement is written as TLA+ clauses over (bank supply, fee collector, params, bonded, max supply) before/after a block: the minted integer must be the nearest integer to some value an 18-decimal evaluation of bonded x coeff% x elapsed/year can reach (band checked by exact cross-multiplication, no association order imposed), elapsed is the difference of consecutive block timestamps, the year length follows the block's calendar year, supply' = supply + min(mint, max - supply), the crossing block mints the remainder and switches minting off, nothing is minted while disabled / on the first block after an activation / at or above the cap, and everything minted reaches the fee collector. TLC proves these clauses for the intended design on all block/parameter-change sequences up to the configured length over small grids (incl. rounding ties, year boundaries, every position of the cap relative to the mint); TLC-generated sequences and random large-value sequences are run on the real EndBlocker and each step is judged by TLC against the clauses. SDK LegacyDec semantics (Dec18.tla) are additionally compared with the real library on random vectors.",
-   note="EndBlocker is called directly on a deliver-state context (cache-wrapped per scenario) with scripted block times; bonded is set through the bonded-pool balance that TotalBondedTokens reads; other modules' EndBlockers do not run. The band is deliberately permissive for large bonded amounts (18-decimal noise scales with bonded), so rounding-mode mutations are visible only on the small-amount scenarios. Exhaustive checking is bounded by specs/Coinomics_*.cfg; TLC, the Json module and the BigNum override are trusted.")
+   technique="TLA+ specs Coinomics.tla + CoinomicsBlock.tla + Dec18.tla: TLC exhaustive model checking of the per-block mint/cap rules and of whole blocks (validator-set changes, parameter proposals and the order of the end blockers); TLC-simulated sequences and seeded random 128-bit scenarios executed on the real x/coinomics EndBlocker at scripted block times, TLC-simulated and seeded random whole blocks executed on the real application through ABCI; every recorded block validated by TLC (exact BigNum arithmetic) against the property layer (trace validation)",
+   text="The statement is written as TLA+ clauses over (bank supply, fee collector, params, bonded, max supply) before/after a block: the minted integer must be the nearest integer to some value an 18-decimal evaluation of bonded x coeff% x elapsed/year can reach (band checked by exact cross-multiplication, no association order imposed), elapsed is the difference of consecutive block timestamps, the year length follows the block's calendar year, supply' = supply + min(mint, max - supply), the crossing block mints the remainder and switches minting off, nothing is minted while disabled / on the first block after an activation / at or above the cap, and everything minted reaches the fee collector. TLC proves these clauses for the intended design on all block/parameter-change sequences up to the configured length over small grids (incl. rounding ties, year boundaries, every position of the cap relative to the mint); TLC-generated sequences and random large-value sequences are run on the real EndBlocker and each step is judged by TLC against the clauses. SDK LegacyDec semantics (Dec18.tla) are additionally compared with the real library on random vectors. Whole blocks: the statement does not say at which instant of a block bonded and the parameters are read; P fixes it as app.go wires it - the mint of block h is computed from the bonded tokens, RewardCoefficient and EnableCoinomics that block h leaves behind (transactions and every other module's end blocker applied: a validator that leaves the bonded set in block h earns nothing for it, one that joins does, a parameter proposal applies to the block that executes it). CoinomicsBlock.tla models the block (BeginBlock jailing by double-sign evidence and downtime, delegate / undelegate / create-validator / unjail / proposal transactions, the gov, staking and coinomics end blockers); TLC checks the clause on all block sequences within the bounds, and witness configurations with coinomics wired before staking or before gov must violate it. Its block scripts and seeded random block scenarios run on the real application (InitChain, BeginBlock with evidence and absences, signed transactions, EndBlock of all modules, Commit) and every block is judged by TLC from the states read before and after the application's EndBlock and the proposals the gov store shows as executed.",
+   note="EndBlocker scenarios: the EndBlocker is called directly on a deliver-state context (cache-wrapped per scenario) with scripted block times; bonded is set through the bonded-pool balance that TotalBondedTokens reads; other modules' EndBlockers do not run. Block scenarios: a fresh application per scenario driven through ABCI with the harness as consensus (votes and evidence are what the scenario says); the cap is placed relative to the genesis supply through the keeper before block 1; the mint is the supply difference across the application's EndBlock (nothing in the scenarios' transactions mints or burns the native coin; a supply change before EndBlock is reported as divergence). The band is deliberately permissive for large bonded amounts (18-decimal noise scales with bonded), so rounding-mode mutations are visible only on the small-amount scenarios. Exhaustive checking is bounded by specs/Coinomics_*.cfg; TLC, the Json module and the BigNum override are trusted.")
 
 
 def _year(ms):
@@ -50,6 +51,53 @@ def _census(path, cen, samples):
             post = o["post"]
             if ev == "reset":
                 pre, last, mode, stale = post, 0, "fresh", None
+                continue
+            if ev == "block":
+                # whole block: s = committed by the previous block, b = before the application's EndBlock
+                s, b = pre, o["pre"]
+                ts = int(o["args"]["ts"])
+                en = b["enabled"]
+                for g in o["gov"]:
+                    if g["key"] == "enabled":
+                        en = g["val"] == "true"
+                cen["chain_blocks"] += 1
+                room = int(b["max"]) - int(b["supply"])
+                year = 31622400000 if _leap(_year(ts)) else 31536000000
+                due = int(post["bonded"]) * int(post["coeff"]) * (ts - last) // (10 ** 20 * year) if last else 0
+                moved = lambda x, y: abs(int(x) - int(y)) * 1000 > int(y)        # by more than 0.1 %
+                if en and mode == "live" and due >= 1:
+                    cen["chain_blocks_due_to_mint"] += 1
+                    if int(post["bonded"]) < int(b["bonded"]) and moved(post["bonded"], b["bonded"]):
+                        cen["chain_due_validator_left_in_endblock"] += 1
+                    if int(post["bonded"]) > int(b["bonded"]) and moved(post["bonded"], b["bonded"]):
+                        cen["chain_due_validator_joined_in_endblock"] += 1
+                    if b["bonded"] != s["bonded"]:
+                        cen["chain_due_bonded_moved_by_transactions"] += 1
+                    if post["coeff"] != b["coeff"]:
+                        cen["chain_due_coeff_changed_by_gov"] += 1
+                    if 0 <= room < due:
+                        cen["chain_due_to_cross_cap"] += 1
+                    if len(samples) < 8 and int(post["bonded"]) != int(b["bonded"]) and room > due and cen["chain_samples"] < 2:
+                        cen["chain_samples"] += 1
+                        samples.append({k: o[k] for k in ("ev", "args", "pre", "gov", "post")})
+                if b["enabled"] and not en and mode == "live":
+                    cen["chain_disabled_by_gov_while_minting"] += 1
+                if en and mode == "fresh":
+                    cen["chain_first_block_after_activation"] += 1
+                    if not b["enabled"]:
+                        cen["chain_activated_by_gov"] += 1
+                for t in o["info"]["txs"]:
+                    if t.endswith(":0"):
+                        cen["chain_tx_" + t.split(":")[0]] += 1
+                if o["args"]["evidence"]:
+                    cen["chain_blocks_with_evidence"] += 1
+                if o["args"]["absent"]:
+                    cen["chain_blocks_with_absent_validator"] += 1
+                if "j" in o["info"]["vals"]:
+                    cen["chain_blocks_with_jailed_validator"] += 1
+                mode = "fresh" if not en else ("live" if post["enabled"] else "ambiguous")
+                last = ts
+                pre = post
                 continue
             if ev == "set_enabled" and mode == "live" and not o["args"]["enabled"]:
                 mode = "ambiguous"
@@ -102,6 +150,31 @@ def _census(path, cen, samples):
             pre = post
 
 
+def _agreement(path, bscripts, agree):
+    """block scripts: the expectation of the scenario machine (field exp of every step) against the recording"""
+    exps = [[st["exp"] for st in s["steps"]] for s in bscripts]
+    k, i = -1, 0
+    with open(path) as fh:
+        for line in fh:
+            o = json.loads(line)
+            if o["ev"] == "reset":
+                if o.get("src") == "script" and isinstance(o.get("cfg"), dict) and o["cfg"].get("mode") == "chain":
+                    k, i = k + 1, 0
+                else:
+                    i = None
+                continue
+            if o["ev"] != "block" or i is None or k >= len(exps) or i >= len(exps[k]):
+                continue
+            e, post = exps[k][i], o["post"]
+            i += 1
+            got = dict(bonded=post["bonded"], enabled=post["enabled"], coeff=post["coeff"], prevTs=post["prevTs"],
+                       minted=str(int(post["supply"]) - int(o["pre"]["supply"])))
+            agree["blocks"] += 1
+            for f in got:
+                if got[f] != e[f]:
+                    agree["differs_" + f] += 1
+
+
 def run(c):
     quick = c.tier == "quick"
     build_harness()
@@ -110,16 +183,33 @@ def run(c):
     # 1. the design: exhaustive model checking of P on the intended machine; on the as-built machine
     #    (stale PrevBlockTS across disabled blocks) P fails only through the named defect
     #    (compensated passes, strict must fail = non-vacuity witness); two reachability probes
-    cfg = "Coinomics_intended.cfg" if quick else "Coinomics_intended_thorough.cfg"
-    r = tlc_exhaustive(wd, "Coinomics.tla", cfg, workers=8, timeout=3000)
-    c.add_tlc(cfg, r)
-    r = tlc_exhaustive(wd, "Coinomics.tla", "Coinomics_defect_comp.cfg", workers=8, timeout=3000)
-    c.add_tlc("Coinomics_defect_comp.cfg", r)
-    r = tlc_exhaustive(wd, "Coinomics.tla", "Coinomics_defect_strict.cfg", must="fail", workers=4)
-    c.add_tlc("Coinomics_defect_strict.cfg", r)
-    for p in ("Coinomics_probe_cross.cfg", "Coinomics_probe_round.cfg"):
-        r = tlc_exhaustive(wd, "Coinomics.tla", p, must="fail", workers=2)
-        c.add_tlc(p, r)
+    #    whole blocks (CoinomicsBlock): P on the as-built block, intended and with the named defect;
+    #    hypothetical wirings of the coinomics end blocker before staking / before gov must violate P;
+    #    reachability probes.  The configurations are independent: a few TLC processes run side by side.
+    from concurrent.futures import ThreadPoolExecutor
+    suffix = ".cfg" if quick else "_thorough.cfg"
+    jobs = [("Coinomics.tla", "Coinomics_intended" + suffix, "pass", 4),
+            ("Coinomics.tla", "Coinomics_defect_comp.cfg", "pass", 4),
+            ("CoinomicsBlock.tla", "CoinomicsBlock_intended" + suffix, "pass", 4),
+            ("CoinomicsBlock.tla", "CoinomicsBlock_defect_comp" + suffix, "pass", 4),
+            ("Coinomics.tla", "Coinomics_defect_strict.cfg", "fail", 4),
+            ("Coinomics.tla", "Coinomics_probe_cross.cfg", "fail", 2),
+            ("Coinomics.tla", "Coinomics_probe_round.cfg", "fail", 2)]
+    jobs += [("CoinomicsBlock.tla", "CoinomicsBlock_%s.cfg" % n, "fail", 2)
+             for n in ("order_staking", "order_gov", "probe_leave", "probe_join", "probe_coeff")]
+    #    They also run beside the scenario batches below (which are single-threaded) and are collected at the end.
+    pool = ThreadPoolExecutor(max_workers=3)
+    futs = [(j, pool.submit(tlc_exhaustive, wd, j[0], j[1], must=j[2], workers=j[3] if quick else 2 * j[3],
+                            timeout=3000, extra=["-noGenerateSpecTE"])) for j in jobs]
+    try:
+        _scenarios(c, wd, quick)
+        for j, f in futs:
+            c.add_tlc(j[1], f.result())
+    finally:
+        pool.shutdown(wait=True, cancel_futures=True)
+
+
+def _scenarios(c, wd, quick):
 
     # 2./3. spec -> code and code -> spec, in batches (one harness run + one validation JVM each)
     batches = 1 if quick else 4
@@ -127,7 +217,10 @@ def run(c):
     nrandom = 2500 if quick else 5000
     nsteps = 14 if quick else 24
     ndec = 3000 if quick else 10000
-    from collections import Counter
+    nbscripts = 120 if quick else 250
+    nbrandom = 150 if quick else 300
+    nbsteps = 12 if quick else 16
+    agree = Counter()
     cen = Counter()
     first, divs, ndiv = {}, [], 0
     c.traces = 0
@@ -137,6 +230,8 @@ def run(c):
     def replay_for(v, seed):
         lines = scenario_lines(trace, v["scn"])
         script = {"cfg": lines[0]["cfg"], "steps": [{"ev": l["ev"], "args": l["args"]} for l in lines[1:]]}
+        if lines[0]["cfg"].get("mode") == "chain":
+            script["cfg"]["seed"] = lines[0]["cfg"]["seed"]      # the keys of the recorded run
         return save_replay("C13", "%s-scn%d" % (seed, v["scn"]),
                            {"property": "C13", "driver": "coinomics", "script": script, "signature": sig_of(v)})
 
@@ -146,8 +241,16 @@ def run(c):
         if len(scripts) < nscripts // 2:
             raise Infra("too few scripts generated: %d" % len(scripts))
         _write_scripts(scripts, os.path.join(wd, "scripts.json"))
+        bscripts, r = tlc_scripts(wd, "CoinomicsBlock.tla", "CoinomicsBlock_sim.cfg", nbscripts, 10, seed, timeout=1800)
+        if len(bscripts) < nbscripts // 2:
+            raise Infra("too few block scripts generated: %d" % len(bscripts))
+        _write_scripts(bscripts, os.path.join(wd, "chain-scripts.json"))
         hv(["coinomics", "--scripts", "scripts.json", "--random", str(nrandom), "--steps", str(nsteps),
+            "--chain-scripts", "chain-scripts.json", "--chain-random", str(nbrandom), "--chain-steps", str(nbsteps),
             "--decvec", str(ndec), "--seed", str(seed), "--out", "trace.ndjson"], cwd=wd)
+        _agreement(trace, bscripts, agree)
+        c.extra["block_scripts_replayed"] = c.extra.get("block_scripts_replayed", 0) + len(bscripts)
+        c.extra["block_random_scenarios"] = c.extra.get("block_random_scenarios", 0) + nbrandom
         res = _validate(wd)
         c.traces += res["scenarios"]
         c.extra["trace_lines"] += res["consumed"]
@@ -170,7 +273,11 @@ def run(c):
 
     c.extra["conformance_divergences"] = divs[:20]
     c.extra["conformance_divergence_count"] = ndiv
+    cen.pop("chain_samples", None)
     c.extra["exercised"] = dict(sorted(cen.items()))
+    # how well the scenario machine of CoinomicsBlock.tla (its staking / slashing / gov environment) predicted
+    # what the real blocks of its scripts left behind (diagnostic: the verdict never uses the prediction)
+    c.extra["block_scenario_model_agreement"] = dict(sorted(agree.items()))
     if ndiv:
         log("NOTE: %d divergences between the recorded executions and the as-built machine M / Dec18 "
             "(diagnostic, not a verdict): %s" % (ndiv, json.dumps(divs[:3])))
@@ -178,7 +285,12 @@ def run(c):
     floors = dict(blocks_due_to_mint=300, blocks_due_to_mint_small_bonded=50, blocks_due_to_cross_cap=30,
                   blocks_disabled=100, blocks_first_after_activation=300, blocks_first_after_reactivation=50,
                   blocks_at_cap=20, blocks_above_cap=20, blocks_across_new_year=50, blocks_leap_year=200,
-                  blocks_common_year=200, blocks_equal_timestamp=30, blocks_100bit_values=200, dec_vectors=1000)
+                  blocks_common_year=200, blocks_equal_timestamp=30, blocks_100bit_values=200, dec_vectors=1000,
+                  chain_blocks=1500, chain_blocks_due_to_mint=400, chain_due_validator_left_in_endblock=25,
+                  chain_due_validator_joined_in_endblock=25, chain_due_bonded_moved_by_transactions=50,
+                  chain_due_coeff_changed_by_gov=15, chain_disabled_by_gov_while_minting=15, chain_activated_by_gov=15,
+                  chain_blocks_with_evidence=30, chain_blocks_with_absent_validator=30, chain_tx_create=30,
+                  chain_tx_unjail=10)
     short = {k: cen[k] for k, f in floors.items() if cen[k] < f}
     c.extra["vacuity_floors_missed"] = short
     listed = {k["signature"] for k in load_known() if k.get("status", "known") == "known"}
@@ -188,7 +300,10 @@ def run(c):
     c.assumptions += [
         "TLC 1.8.0, the Json community module and the BigNum Java override (java/BigNum.java) are trusted",
         "the projection in harness/coinomics.go reads bank supply, fee-collector balance, coinomics params, PrevBlockTS, MaxSupply and staking TotalBondedTokens through the real keepers",
-        "keeper.EndBlocker is called directly with ctx.WithBlockTime(scripted time) on a cache-wrapped deliver context; BeginBlock/EndBlock of other modules do not run, so the fee collector is not drained between blocks",
+        "EndBlocker scenarios: keeper.EndBlocker is called directly with ctx.WithBlockTime(scripted time) on a cache-wrapped deliver context; BeginBlock/EndBlock of other modules do not run, so the fee collector is not drained between blocks",
+        "block scenarios: the application is driven through ABCI (InitChain, BeginBlock, DeliverTx, EndBlock, Commit) with the harness as consensus: last-commit votes, absences and double-sign evidence are what the scenario says; the proposer is always validator 1, which the scenarios never take out of the bonded set",
+        "block scenarios: P reads 'the mint of block h' as the supply difference across the application's EndBlock, computed from bonded / RewardCoefficient as read after it (coinomics writes neither) and EnableCoinomics as read before it with the parameter changes of the proposals applied that the gov store shows as moved from the voting period to PASSED by this EndBlock",
+        "block scenarios generated by TLC run with slash fractions 0 (exchange rate 1 in the scenario machine); half of the seeded random ones slash 5 % / 1 %",
         "bonded is controlled through the balance of the bonded pool (what TotalBondedTokens reads), not through delegations",
         "the amount is judged against a band (18-decimal noise scaled by bonded, plus 1/2 + 1/1000), not against one association order; exact agreement with the as-built formula is reported as conformance only",
         "exhaustive model checking is bounded by the constants in specs/Coinomics_*.cfg (env steps between two blocks in canonical order)",
@@ -202,7 +317,8 @@ def replay(path, quiet=False):
     obj = json.load(open(path))
     with open(os.path.join(wd, "scripts.json"), "w") as fh:
         json.dump([obj["script"]], fh)
-    hv(["coinomics", "--scripts", "scripts.json", "--out", "trace.ndjson"], cwd=wd)
+    flag = "--chain-scripts" if obj["script"]["cfg"].get("mode") == "chain" else "--scripts"
+    hv(["coinomics", flag, "scripts.json", "--out", "trace.ndjson"], cwd=wd)
     res, _ = validate_trace(wd, "CoinomicsTrace.tla", TRACE_CFG)
     sigs = sorted({sig_of(v) for v in res["viol"]})
     if not quiet:
